@@ -5,6 +5,7 @@ package main
 import (
 	"fmt"
 	"go/token"
+	"strings"
 
 	"golang.org/x/tools/go/ssa"
 )
@@ -369,25 +370,16 @@ func ruleP02Range(p *Prog, r *Report) {
 			r.bad(rule, fmt.Sprintf("offset#%d", i), p.instrPos(ret), "MidnightOffset is not built from hours and minutes")
 			continue
 		}
-		cls := "today"
-		for _, g := range guardsOf(ret.Block()) {
-			n, _, _, _ := methodCall(g.Cond)
-			if g.Pol && n == "IsYesterday" {
-				cls = "yesterday"
-			}
-			if g.Pol && n == "IsTomorrow" {
-				cls = "tomorrow"
-			}
-		}
+		cls := dayClass(guardsOf(ret.Block()))
 		seen[cls] = true
-		// expect 60*Hour + Minute + shift
+		// expect 60*Hour + Minute + shift (through the accessors or the fields themselves)
 		var h, mi int64
-		for k, c := range m.Terms {
-			n, _, _, _ := methodCall(m.leafV[k])
-			switch n {
-			case "Hour":
+		mx := expandAccessors(m, 0)
+		for k, c := range mx.Terms {
+			switch {
+			case strings.HasSuffix(k, ".hour"):
 				h += c
-			case "Minute":
+			case strings.HasSuffix(k, ".minute"):
 				mi += c
 			default:
 				h = -999
@@ -685,4 +677,65 @@ func sameSliceSource(a, b ssa.Value) bool {
 		return true
 	}
 	return false
+}
+
+// dayClass: which day a time lies on, as far as the guards tell: the predicates IsYesterday /
+// IsToday / IsTomorrow or comparisons of the dayShift field (which is -1, 0 or +1) with a
+// constant, in either polarity.  "?" when the guards leave more than one day open.
+func dayClass(gs []Guard) string {
+	possible := map[int64]bool{-1: true, 0: true, 1: true}
+	restrict := func(holds func(s int64) bool, pol bool) {
+		for s := range possible {
+			if holds(s) != pol {
+				delete(possible, s)
+			}
+		}
+	}
+	for _, g := range gs {
+		cond, pol := g.Cond, g.Pol
+		for {
+			u, isU := cond.(*ssa.UnOp)
+			if !isU || u.Op != token.NOT {
+				break
+			}
+			cond, pol = u.X, !pol
+		}
+		if n, _, _, c := methodCall(cond); c != nil {
+			switch n {
+			case "IsYesterday":
+				restrict(func(s int64) bool { return s < 0 }, pol)
+			case "IsTomorrow":
+				restrict(func(s int64) bool { return s > 0 }, pol)
+			case "IsToday":
+				restrict(func(s int64) bool { return s == 0 }, pol)
+			}
+			continue
+		}
+		bo, ok := cond.(*ssa.BinOp)
+		if !ok {
+			continue
+		}
+		x, y, op := bo.X, bo.Y, bo.Op
+		if _, isK := constInt(x); isK {
+			x, y = y, x
+			op = map[token.Token]token.Token{token.LSS: token.GTR, token.GTR: token.LSS, token.LEQ: token.GEQ, token.GEQ: token.LEQ, token.EQL: token.EQL, token.NEQ: token.NEQ}[op]
+		}
+		k, isK := constInt(y)
+		if _, fld := fieldLoad(x); !isK || fld != "dayShift" {
+			continue
+		}
+		restrict(func(s int64) bool {
+			return map[token.Token]bool{token.EQL: s == k, token.NEQ: s != k, token.LSS: s < k, token.LEQ: s <= k, token.GTR: s > k, token.GEQ: s >= k}[op]
+		}, pol)
+	}
+	if len(possible) == 3 {
+		return "today" // no case distinction on this path: the plain case
+	}
+	if len(possible) != 1 {
+		return "?"
+	}
+	for s := range possible {
+		return map[int64]string{-1: "yesterday", 0: "today", 1: "tomorrow"}[s]
+	}
+	return "?"
 }
